@@ -30,7 +30,7 @@ func init() { props["C03"] = runC03 }
 // `safefix` / `repaired` for self-tests against a patched copy (VERIF_REPO=… VERIF_C03_MODEL=safefix).
 func c03Model() string {
 	switch m := os.Getenv("VERIF_C03_MODEL"); m {
-	case "safefix", "safefix2", "repaired", "aswas":
+	case "safefix", "safefix2", "safefix3", "repaired", "aswas":
 		return m
 	}
 	return "asis"
@@ -687,6 +687,7 @@ func runC03(c *Ctx) {
 		}
 		c03Oracle(c, cs)
 	}
+	c03IfaceArith(c)
 	for _, k := range []string{"check:accepted", "check:rejected", "oracle:static-runs", "oracle:mutants-rejected"} {
 		if c.R.Counters[k] == 0 {
 			c.R.Mismatch("generator", k, "", "counter is zero")
@@ -815,6 +816,50 @@ func c03IllKey(refClass string) string {
 		return "in-map-key"
 	}
 	return refClass
+}
+
+// c03IfaceArith: `combined(interface{}, int)` is `int` (typeWeight of interface{} is 0), so arithmetic
+// with an interface-typed operand is reported with the other operand's numeric type although the value
+// may be of any numeric kind.  Such programs are not "statically typed" in the property's sense (an
+// operand has interface type), but the checker makes a static claim about them; the probes compare it
+// with what the VM yields.
+func c03IfaceArith(c *Ctx) {
+	env := popIface(EnvScalars{}).(EnvScalars)
+	env.Any = 1.5
+	env.Anys = []interface{}{1.5, 2}
+	for _, src := range []string{"Any * 1", "Any + I", "Anys[0] * 2", "I64 - Any", "(Any * 1) == 1", "filter(map(Anys, {# * 1}), {# in 1..3})"} {
+		tree, err := parser.Parse(src)
+		if err != nil {
+			c.R.Mismatch("generator", src, "", err.Error())
+			continue
+		}
+		ty, cerr := checker.Check(tree, conf.New(env))
+		rv := compileRunOpts(src, env, []expr.Option{expr.Env(env)})
+		c.R.Case("ifacearith|"+src, true)
+		in := c03Input{"EnvScalars/Any=1.5", src, "none", ""}
+		if cerr != nil || !rv.accepted {
+			continue
+		}
+		want := "(no static claim)"
+		if ty != nil {
+			want = ty.String()
+		}
+		switch {
+		case !rv.ran && runErrClass(rv.rerr) == "type":
+			violateKeyed16(c, Violation{What: "arithmetic with an interface-typed operand is given the other operand's numeric type (combined(interface{}, int) = int); type-directed code then fails or changes results", Key: "c03:dynamic-type-differs:arith-with-interface-operand", Input: in,
+				Expect: "no type error (static type " + want + ")", Got: rv.rerr})
+		case rv.ran && ty != nil && ty.Kind() != reflect.Interface && ty.Kind() != reflect.Slice && rv.out != nil && reflect.TypeOf(rv.out) != ty:
+			violateKeyed16(c, Violation{What: "arithmetic with an interface-typed operand is given the other operand's numeric type (combined(interface{}, int) = int); type-directed code then fails or changes results", Key: "c03:dynamic-type-differs:arith-with-interface-operand", Input: in,
+				Expect: "a value of type " + want, Got: fmt.Sprintf("%T (%v)", rv.out, rv.out)})
+		case rv.ran && src == "filter(map(Anys, {# * 1}), {# in 1..3})":
+			// the in-range rewrite fires on the (wrong) static type int: Eval (no types) yields [2]
+			ev, _ := expr.Eval(src, env)
+			if fmt.Sprint(ev) != fmt.Sprint(rv.out) {
+				violateKeyed16(c, Violation{What: "arithmetic with an interface-typed operand is given the other operand's numeric type (combined(interface{}, int) = int); type-directed code then fails or changes results", Key: "c03:dynamic-type-differs:arith-with-interface-operand", Input: in,
+					Expect: fmt.Sprintf("%v (as expr.Eval)", ev), Got: fmt.Sprint(rv.out)})
+			}
+		}
+	}
 }
 
 func c03DynKey(src string) string {
